@@ -223,6 +223,11 @@ def one(ck, cls):
     quits = [n for n in rs.calls("QThread::quit")]
     waits = [n for n in rs.calls("QThread::wait")]
     clears = [n for n in rs.find(lambda y: y.get("k") == "binop" and y.get("op") == "=" and is_this_field(y.get("lhs"), W) and skip_copies(y.get("rhs")).get("k") == "null_lit")]
+    psym0 = lambda n: (n.get("k") == "call" and is_this_field(n.get("obj"), P) and name_is(n.get("callee"), ("loadAcquire", "loadRelaxed", "load", "operator int"))) or is_this_field(n, P)
+    terms = [n for n in rs.calls("QThread::terminate") if g.site_of(n) in g.live()]
+    if terms and not [l for l in find_loops(rs) if l.get("cond") and any(psym0(x) for x in walk(l["cond"]))]:
+        ck.ob("C04-O3", sitestr(rs, terms[0]), False, "%s: the stop terminates the thread after a time-out without ever having waited for the backlog: with a backlog that takes longer than the time-out "
+              "(slow sink, burst) the worker is killed in the middle of a delivery and everything still queued is dropped" % tag, key="resetOwnThread|terminate-with-backlog")
     ck.require(len(quits) == 1 and waits and len(clears) == 1, "%s::resetOwnThread: quit/wait/clear anchors not found (%d/%d/%d)" % (tag, len(quits), len(waits), len(clears)))
     qs = g.site_of(quits[0])
     psym = lambda n: "pending" if (n.get("k") == "call" and is_this_field(n.get("obj"), P) and name_is(n.get("callee"), ("loadAcquire", "loadRelaxed", "load", "operator int"))) or is_this_field(n, P) else None
@@ -264,6 +269,14 @@ def one(ck, cls):
         exit_only = qs not in r
         ck.ob("C04-O3", sitestr(rs, quits[0]), okd and exit_only, "%s: quit() is reached only after the drain test found nothing pending" % tag if (okd and exit_only) else
               "%s: quit() can be reached while messages are pending" % tag, key="resetOwnThread|quit-before-drain")
+        # the worker the loop waits for may itself need the hand-off mutex (a handler that logs through the same logger comes back into
+        # process() on the worker thread): somewhere in every iteration the mutex must be free
+        body_keys = [k_ for k_ in (g.site_of(x) for x in walk(loop.get("body") or {}) if isinstance(x, dict) and x.get("k") in ("call", "binop", "unop")) if k_ is not None]
+        if body_keys:
+            free = [k_ for k_ in body_keys if not lf_.held_at(k_, M)]
+            ck.ob("C04-O6", sitestr(rs, loop["cond"]), bool(free), "%s: the hand-off mutex is released inside every iteration of the drain loop" % tag if free else
+                  "%s: the drain loop waits for the pending count with the hand-off mutex held all the time: a handler that logs through the same logger while the worker delivers a backlog message "
+                  "blocks in process() on the worker thread, its message stays pending, the count never reaches 0 and the stop never returns" % tag, key="resetOwnThread|drain-holds-mutex")
         held_c = lf_.held_at(cs, M)
         ck.ob("C04-O3", sitestr(rs, pend[0]), held_c, "%s: the pending count is tested with the mutex held (producers cannot post in between)" % tag if held_c else "%s: the drain test runs without the mutex" % tag, key="resetOwnThread|test-unlocked")
     for n, what in [(quits[0], "quit()")] + [(w, "wait()") for w in waits] + [(clears[0], "m_worker = nullptr")]:
